@@ -104,6 +104,11 @@ type simWorld struct {
 
 	cachePath string
 
+	// optional real stores mirrored by every applied operation (thorough tier): the same scenarios then also
+	// exercise LocalBackend and SQLiteBackend, whose results must agree with the model
+	realB Backend
+	realL LockBackend
+
 	// hooks (all optional), called with mu held unless stated otherwise
 	onApplied func(op *simOp, data []byte, old []byte) // after an operation took effect
 	yieldMu   sync.Mutex
@@ -388,6 +393,11 @@ func (b *simBackend) Upload(ctx context.Context, key string, data []byte, opts *
 		if key == "checkpoint" {
 			w.pubLog = append(w.pubLog, simCkptEvent{op.N, p.id, bytes.Clone(data)})
 		}
+		if w.realB != nil {
+			if err := w.realB.Upload(context.Background(), key, data, opts); err != nil {
+				w.violate("the real LocalBackend refused Upload(%q) which the model applied (op %d): %v", key, op.N, err)
+			}
+		}
 		if w.onApplied != nil {
 			w.onApplied(op, data, old)
 		}
@@ -412,6 +422,12 @@ func (b *simBackend) Fetch(ctx context.Context, key string) ([]byte, error) {
 		return nil, p.finish(op, mode, false)
 	}
 	data, ok := w.objs[key]
+	if w.realB != nil && !w.tampered {
+		rd, rerr := w.realB.Fetch(context.Background(), key)
+		if (rerr == nil) != ok || (ok && !bytes.Equal(rd, data)) {
+			w.violate("the real LocalBackend returns something else than the model for Fetch(%q): err=%v, %d bytes vs present=%v, %d bytes", key, rerr, len(rd), ok, len(data))
+		}
+	}
 	if op.Class == "staging" && ok && !op.Inline {
 		p.batchKeys = simBundleKeys(data)
 	}
@@ -439,8 +455,14 @@ func (b *simBackend) Discard(ctx context.Context, key string) error {
 			w.violate("Discard of a non-staging object %q (op %d)", key, op.N)
 		}
 		old := w.objs[key]
+		_, present := w.objs[key]
 		delete(w.objs, key)
 		delete(w.opts, key)
+		if w.realB != nil && present {
+			if err := w.realB.Discard(context.Background(), key); err != nil {
+				w.violate("the real LocalBackend failed Discard(%q): %v", key, err)
+			}
+		}
 		if w.onApplied != nil {
 			w.onApplied(op, nil, old)
 		}
@@ -455,6 +477,7 @@ type simLock struct{ p *simProc }
 type simLocked struct {
 	logID [sha256.Size]byte
 	b     []byte
+	real  LockedCheckpoint
 }
 
 func (c *simLocked) Bytes() []byte { return c.b }
@@ -477,10 +500,18 @@ func (l *simLock) Fetch(ctx context.Context, logID [sha256.Size]byte) (LockedChe
 	}
 	p.finish(op, simOK, false)
 	v, ok := w.lock[logID]
+	var real LockedCheckpoint
+	if w.realL != nil {
+		r, rerr := w.realL.Fetch(context.Background(), logID)
+		if (rerr == nil) != ok || (ok && !bytes.Equal(r.Bytes(), v)) || (!ok && !errors.Is(rerr, ErrLogNotFound)) {
+			w.violate("the real SQLite lock backend disagrees with the model on Fetch: err=%v present=%v", rerr, ok)
+		}
+		real = r
+	}
 	if !ok {
 		return nil, ErrLogNotFound
 	}
-	return &simLocked{logID, bytes.Clone(v)}, nil
+	return &simLocked{logID, bytes.Clone(v), real}, nil
 }
 
 func (l *simLock) Replace(ctx context.Context, old LockedCheckpoint, new []byte) (LockedCheckpoint, error) {
@@ -492,9 +523,18 @@ func (l *simLock) Replace(ctx context.Context, old LockedCheckpoint, new []byte)
 	defer w.mu.Unlock()
 	mode := p.decide(op)
 	applied := mode == simOK || mode == simErrApplied || mode == simCrashAfter
+	var realNew LockedCheckpoint
 	if applied {
 		cur, ok := w.lock[o.logID]
-		if !ok || !bytes.Equal(cur, o.b) {
+		conflict := !ok || !bytes.Equal(cur, o.b)
+		if w.realL != nil && o.real != nil {
+			nr, rerr := w.realL.Replace(context.Background(), o.real, new)
+			if (rerr != nil) != conflict {
+				w.violate("the real SQLite lock backend disagrees with the model on Replace: err=%v, model conflict=%v (op %d)", rerr, conflict, op.N)
+			}
+			realNew = nr
+		}
+		if conflict {
 			// compare-and-swap conflict: a genuine failure, nothing applied
 			op.Mode, op.Applied, op.Err = mode, false, true
 			op.Class = "lock-conflict"
@@ -510,7 +550,7 @@ func (l *simLock) Replace(ctx context.Context, old LockedCheckpoint, new []byte)
 	if err := p.finish(op, mode, applied); err != nil {
 		return nil, err
 	}
-	return &simLocked{o.logID, bytes.Clone(new)}, nil
+	return &simLocked{o.logID, bytes.Clone(new), realNew}, nil
 }
 
 func (l *simLock) Create(ctx context.Context, logID [sha256.Size]byte, new []byte) error {
@@ -522,7 +562,13 @@ func (l *simLock) Create(ctx context.Context, logID [sha256.Size]byte, new []byt
 	mode := p.decide(op)
 	applied := mode == simOK || mode == simErrApplied || mode == simCrashAfter
 	if applied {
-		if _, ok := w.lock[logID]; ok {
+		_, exists := w.lock[logID]
+		if w.realL != nil {
+			if rerr := w.realL.Create(context.Background(), logID, new); (rerr != nil) != exists {
+				w.violate("the real SQLite lock backend disagrees with the model on Create: err=%v, model exists=%v", rerr, exists)
+			}
+		}
+		if exists {
 			op.Mode, op.Applied, op.Err = mode, false, true
 			op.Class = "lock-conflict"
 			w.trace = append(w.trace, *op)
